@@ -62,6 +62,8 @@ def parse_one(name):
     want = None if w is None else [(Instrument[i], Difficulty[d]) for i, d in w]
     try:
         c = Chart.from_file(io.StringIO(TEXTS[name]), want_tracks=want)
+        if KEEP[0]:
+            KEPT.append(c)        # (history jobs with "keep": every chart of the history stays alive; otherwise it is freed at once)
         o = observe.obs_chart(c)
         h = hashlib.sha256()
         h.update(observe.digest(o).encode())
@@ -71,14 +73,21 @@ def parse_one(name):
         return "raise:" + type(e).__name__ + ":" + hashlib.sha256(str(e).encode()).hexdigest()[:12]
 
 
+KEEP = [False]
+KEPT: list = []
+
+
 def run_history(j):
     out = []
+    KEEP[0] = bool(j.get("keep"))
     for name in j["seq"]:
         before = cache_state()
         d = parse_one(name)
         after = cache_state()
         delta = {k: [after[k][0] - before[k][0], after[k][1] - before[k][1]] for k in after}
         out.append({"text": name, "got": d, "cache": delta})
+    KEEP[0] = False
+    del KEPT[:]
     return {"kind": "history", "parses": out}
 
 
